@@ -11,10 +11,11 @@ import collections
 import concurrent.futures as cf
 import json
 import os
+import time
 
 from vlib import Infra, NCPU, log, open_findings, read_ndjson, save_replay, tlc_mc, tlc_sim, write_evidence, write_ndjson
 
-VARIANTS = ['ascii', 'binary', 'prefix']
+VARIANTS = ['ascii', 'binary', 'prefix', 'emptykey']
 BAD_OUTCOMES = ('fabricated', 'panic', 'hang', 'crash')
 # what KevoSST predicts for one altered byte per region (OpenResult / LoadRes / GetImpl with Covered = data, restart,
 # index, footer); anything else that still satisfies the property is listed in the evidence, it is no violation
@@ -49,11 +50,11 @@ def model_check(ctx):
 
 
 def generate(ctx):
-    runs = 3 if ctx.quick() else 8
-    num = 100 if ctx.quick() else 450
+    runs = 6 if ctx.quick() else 12
+    num = 110 if ctx.quick() else 500
     behs, seen = [], set()
     with cf.ThreadPoolExecutor(max_workers=runs) as ex:
-        futs = [ex.submit(tlc_sim, ctx, 'GEN_SST', 'GEN_SST.cfg', num, 260, ctx.seed * 31 + 7 + i, 900, f'gen-sst-{i}')
+        futs = [ex.submit(tlc_sim, ctx, 'GEN_SST', 'GEN_SST.cfg', num, 700, ctx.seed * 31 + 7 + i, 900, f'gen-sst-{i}')
                 for i in range(runs)]
         for f in futs:
             for b in f.result():
@@ -117,11 +118,11 @@ def run_replays(ctx, behs):
             total += 1
             ctx.evaluations += r.get('calls', 0)
             beh = behs[r['b']]
-            if len(beh['lens']) > 1 or len(beh['ents']) > 16:
+            if len(beh['lens']) > 1 or len(beh['ents']) > 16:    # more than one block or more than one restart interval
                 ctx.nontrivial.add((tuple(beh['lens']), beh['seed'], v))
             for m in r.get('mism', [])[:1]:
-                sig = (m.get('kind'), m.get('msg', '')[:20])
-                if sig in handled and len(handled) >= 1:
+                sig = m.get('kind')
+                if sig in handled:
                     continue
                 if len(ctx.violations) >= 5:
                     continue
@@ -147,6 +148,8 @@ def selftest_replay(ctx, behs):
     if beh is None:
         raise Infra('binding self-test: no suitable behaviour')
     noticed = []
+    lim = ['-limit', '100000']
+    base = set(mm_sig(m) for m in replay(ctx, [beh], 'binary', 'selftest-base', extra=lim)[0].get('mism', []))
     for field in ('seek', 'get', 'iter', 'prog', 'last', 'seq', 'value', 'tomb'):
         b2 = json.loads(json.dumps(beh))
         if field == 'seek':
@@ -160,11 +163,11 @@ def selftest_replay(ctx, behs):
         elif field in ('seq', 'value', 'tomb'):
             pass        # the table is written as generated; the harness falsifies its own expectation about entry 2 (-skew)
         else:
-            i = max(i for i, s in enumerate(b2['prog']) if s['a'] != 'newiter' and s['pos'] != 0)
-            b2['prog'][i]['pos'] = b2['prog'][i]['pos'] % len(b2['ents']) + 1
-        r = replay(ctx, [b2], 'binary', 'selftest-' + field, extra=['-skew', field] if field in ('seq', 'value', 'tomb') else [])[0]
-        want = {'seq': 'iter', 'value': 'iter', 'tomb': 'iter'}.get(field, field)
-        if r.get('ok') or not any(m['kind'] == want for m in r.get('mism', [])):
+            b2['prog'][0]['pos'] = b2['prog'][0]['pos'] % len(b2['ents']) + 1     # first call of the first program
+        r = replay(ctx, [b2], 'binary', 'selftest-' + field,
+                   extra=lim + (['-skew', field] if field in ('seq', 'value', 'tomb') else []))[0]
+        # noticed = a disagreement that the unmodified behaviour does not produce (the tree under test may have defects of its own)
+        if not any(mm_sig(m) not in base for m in r.get('mism', [])):
             raise Infra(f'binding self-test failed: a corrupted {field} prediction was not noticed by the replay')
         noticed.append(field)
     ctx.notes['binding_selftest'] = 'corrupted predictions noticed by the replay: ' + ', '.join(noticed)
@@ -182,11 +185,12 @@ def pick_tables(ctx, behs):
     one = first(lambda b: b['lens'] == [1] and no_big(b))
     few = first(lambda b: len(b['lens']) == 1 and 2 <= b['lens'][0] <= 3 and no_big(b) and any(e['c'] == 'tomb' for e in b['ents']))
     mid = first(lambda b: len(b['lens']) == 1 and 17 <= b['lens'][0] <= 34 and no_big(b))
-    two = first(lambda b: len(b['lens']) in (2, 3) and 4 <= len(b['ents']) <= 60, 1 if ctx.quick() else 3)
-    many = first(lambda b: len(b['lens']) >= 17)
-    picks = [(b, True, 0) for b in one + few + mid] + [(b, False, 240 if ctx.quick() else 2000) for b in two]
+    two = first(lambda b: len(b['lens']) == 2 and 4 <= len(b['ents']) <= 60, 1 if ctx.quick() else 2) + \
+        first(lambda b: len(b['lens']) == 3 and 4 <= len(b['ents']) <= 70 and any(e['c'] == 'big' for e in b['ents']), 1 if ctx.quick() else 2)
+    many = first(lambda b: len(b['lens']) >= 17, 1 if ctx.quick() else 2)
+    picks = [(b, True, 0) for b in one + few + mid] + [(b, False, 400 if ctx.quick() else 3000) for b in two]
+    picks += [(b, False, 200 if ctx.quick() else 2000) for b in many]
     if not ctx.quick():
-        picks += [(b, False, 1500) for b in many]
         picks += [(b, True, 0) for b in first(lambda b: len(b['lens']) == 2 and len(b['ents']) <= 6)]   # every offset of a 2-block file
     if len(picks) < 3 or not two:
         raise Infra('corruption sweep: the generated behaviours contain no suitable small and multi-block tables')
@@ -213,7 +217,9 @@ def run_sweeps(ctx, behs):
     handled = set()
     for f, (beh, every, samples) in enumerate(picks):
         variant = VARIANTS[(f + 1) % len(VARIANTS)]
+        t0 = time.time()
         res = sweep(ctx, f, beh, every, samples, variant, 'sweep')
+        log(f"C11 sweep {f}: blocks {beh['lens'][:6]}{'...' if len(beh['lens']) > 6 else ''} {variant} {len(res)} cases {time.time() - t0:.1f} s")
         judged = [r for r in res if r['outcome'] != 'same']
         swept.append({'blocks': beh['lens'], 'bytes': variant, 'offsets': 'every' if every else 'boundaries+seeded',
                       'cases': len(judged)})
@@ -277,18 +283,28 @@ def check_C11(ctx):
         fm.result()
         behs = fg.result()
         fb.result()
+    log(f'C11: model checking + generation of {len(behs)} tables + harness build {time.time() - ctx.t0:.0f} s')
     if len(behs) < 30:
         raise Infra(f'only {len(behs)} behaviours generated')
-    shapes = collections.Counter('1 block' if len(b['lens']) == 1 else '2-3 blocks' if len(b['lens']) <= 3 else
+    shapes = collections.Counter('>= 9 restart points in a block' if max(b['lens']) >= 130 else
+                                 '1 block' if len(b['lens']) == 1 else '2-3 blocks' if len(b['lens']) <= 3 else
                                  '4-6 blocks' if len(b['lens']) <= 6 else '17-34 blocks' for b in behs)
-    if len(shapes) < 4:
+    if len(shapes) < 5:
         raise Infra(f'generated tables do not cover all shape families: {dict(shapes)}')
     ctx.notes['generated_tables'] = dict(shapes)
     ctx.samples = [{'lens': b['lens'], 'classes': [e['c'] for e in b['ents']][:8], 'prog': b['prog'][:6]} for b in behs[:3]]
-    selftest_replay(ctx, behs)
     ctx.traces += run_replays(ctx, behs)
+    log(f'C11: replays done at {time.time() - ctx.t0:.0f} s')
     picks = run_sweeps(ctx, behs)
-    selftest_sweep(ctx, picks)
+    log(f'C11: sweeps done at {time.time() - ctx.t0:.0f} s')
+    try:
+        selftest_replay(ctx, behs)
+        selftest_sweep(ctx, picks)
+    except Infra as e:
+        if not ctx.violations:
+            raise
+        # a tree that already disagrees with the specification can mask a planted disagreement: the verdict stands
+        ctx.notes['binding_selftest'] = 'inconclusive on a tree with violations: ' + str(e)[:200]
     write_evidence(ctx, 'model_checking',
                    'model checking: KevoSST (operational index scan, restart binary search with step-back, linear decode, block hand-over, '
                    'Get with per-block bloom filter; writer with offset-labelled filters) checked exhaustively for all shapes of the bounded '
